@@ -44,7 +44,7 @@ def instances(tier, seed):
                     out.append(Instance(crate="hk_hal", family=f"hal.{oname}", name=f"c12_hal_{oname}_{be}_n{nn}_p{sgn(p)}",
                                         call=f"crate::c12::hal_op::<{BE[be]}, {nn}, {S}, {L}, {max(3*nn, 8)}, {op}>({b}, {p})", unwind=max(L, 3 * nn) + 10,
                                         params={"op": oname, "backend": be, "n": nn, "size": S, "base2k": b, "param": p},
-                                        symbolic=["all scratch bytes", "operands |x|<2^60", "prior result"],
+                                        symbolic=["all scratch bytes", "operands |x|<2^60", "prior result"], stubs=[("poulpy_cpu_ref::hal_defaults::scratch::take_slice_aligned", "crate::vz::take_slice_aligned_stub")],
                                         functions=[f"{D}/vec_znx.rs::vec_znx_{oname}_default (+ its *_tmp_bytes)", f"{D}/scratch.rs::take_slice_aligned"], timeout=900,
                                         core=(be == "fft64" and nn in (1, 4) and p == ps[0] and op in (0, 2, 4, 5, 9)) or (be == "ntt120" and nn == 2 and op in (0, 4))))
     return out
@@ -54,5 +54,5 @@ META = {
     "bounds": "scratch windows: start offsets {0,8,24,40,63} mod 64, lengths {64,100,200,204,256}, take length symbolic; HAL pairs: n in {1,2,4} (limb byte sizes 8/16/32, all below the 64-byte alignment), 2 limbs, 2 columns, base2k=17, FFT64Ref and NTT120Ref marker modules",
     "outside": "poulpy-core / ckks / bin-fhe (operation, tmp_bytes) pairs (their operations run through the DFT; DESIGN §2.4), DFT-domain HAL pairs, multi-thread variants, monotonicity of size queries",
     "assumptions": ["scratch window starts 64-byte aligned for the HAL pairs (as ScratchOwned::alloc provides)"],
-    "stubs": [],
+    "stubs": ["take_slice_aligned (private, poulpy-cpu-ref/src/hal_defaults/scratch.rs) replaced, in the harnesses that run whole operations, by a copy that derives the 64-byte padding from the window offset inside the 64-byte-aligned harness arena instead of from the pointer integer (same function on these arenas; keeps scratch offsets constant for the engine); the real function is decided by the scratch.take_slice* harnesses"],
 }
